@@ -4,46 +4,463 @@
 import YalafiVerif.Spec.Replace
 namespace Yalafi
 
-theorem substitute_spec (txt : Str) (pos : List Nat) (ms : List Span) (repl : Str)
-    (hlen : txt.length = pos.length) (hok : SpansOk 0 txt.length ms) :
-    (substitute txt pos ms repl).1.length = (substitute txt pos ms repl).2.length ∧
-    (substitute txt pos ms repl).1.zip (substitute txt pos ms repl).2 =
-      (List.range txt.length).flatMap (substSpecAt txt pos ms repl) := by
-  sorry
+/-! ### `substitute` -/
 
-theorem substitute_positions (txt : Str) (pos : List Nat) (ms : List Span) (repl : Str)
-    (hlen : txt.length = pos.length) (hok : SpansOk 0 txt.length ms) :
-    ∀ p ∈ (substitute txt pos ms repl).2, p ∈ pos := by
-  sorry
+theorem replPositions_sub (ps : List Nat) (r : Nat) : ∀ p ∈ replPositions ps r, p ∈ ps := by
+  intro p hp
+  unfold replPositions at hp
+  split at hp
+  · exact List.mem_of_mem_take hp
+  · split at hp
+    · rename_i l hl
+      simp only [List.mem_append, List.mem_replicate] at hp
+      rcases hp with hp | ⟨_, hp⟩
+      · exact hp
+      · subst hp; exact List.mem_of_getLast? hl
+    · exact hp
 
-theorem findSpans_ok (T : Tables) (ph : Phrase) (txt : Str) :
-    SpansOk 0 txt.length (findSpans T ph txt.length 0 none txt) := by
-  sorry
+theorem substituteFrom_positions (repl : Str) (last : Nat) (txt : Str) (pos : List Nat) (ms : List Span) :
+    ∀ p ∈ (substituteFrom repl last txt pos ms).2, p ∈ pos := by
+  induction ms generalizing last txt pos with
+  | nil => simp [substituteFrom]
+  | cons m ms ih =>
+    intro p hp
+    simp only [substituteFrom, List.mem_append] at hp
+    rcases hp with (hp | hp) | hp
+    · exact List.mem_of_mem_take hp
+    · exact List.mem_of_mem_drop (List.mem_of_mem_take (replPositions_sub _ _ p hp))
+    · exact List.mem_of_mem_drop (ih _ _ _ p hp)
+
+theorem getD_range' (l : List α) (d : α) (a k : Nat) (h : a + k ≤ l.length) :
+    (List.range' a k).map (fun i => l.getD i d) = (l.drop a).take k := by
+  apply List.ext_getElem
+  · simp; omega
+  · intro i h1 h2
+    simp at h1 h2 ⊢
+    rw [List.getElem?_eq_getElem (by omega)]; simp
+
+theorem replPositions_eq (pos : List Nat) (s len r : Nat) (h : s + len ≤ pos.length) (hl : 1 ≤ len) :
+    replPositions ((pos.drop s).take len) r
+      = (List.range r).map (fun j => pos.getD (s + min j (len - 1)) 0) := by
+  have hlen : ((pos.drop s).take len).length = len := by simp; omega
+  unfold replPositions
+  rw [hlen]
+  split
+  · apply List.ext_getElem
+    · simp; omega
+    · intro i h1 h2
+      simp at h1 h2 ⊢
+      have : min i (len - 1) = i := by omega
+      rw [this, List.getElem?_eq_getElem (by omega)]; simp
+  · have hne : (pos.drop s).take len ≠ [] := by
+      intro h0; rw [h0] at hlen; simp at hlen; omega
+    rw [List.getLast?_eq_some_getLast hne]
+    simp only
+    apply List.ext_getElem
+    · simp; omega
+    · intro i h1 h2
+      simp at h1 h2 ⊢
+      rw [List.getElem_append]
+      split
+      · rename_i hi
+        simp at hi
+        have : min i (len - 1) = i := by omega
+        rw [this, List.getElem?_eq_getElem (by omega)]; simp
+      · rename_i hi
+        simp at hi
+        have : min i (len - 1) = len - 1 := by omega
+        rw [this, List.getElem?_eq_getElem (by omega)]
+        simp [List.getLast_eq_getElem]
+        congr 1; omega
+
+
+theorem zip_drop_take (txt : Str) (pos : List Nat) (a k : Nat)
+    (h1 : a + k ≤ txt.length) (h2 : a + k ≤ pos.length) :
+    ((txt.drop a).take k).zip ((pos.drop a).take k)
+      = (List.range' a k).map (fun i => (txt.getD i ' ', pos.getD i 0)) := by
+  rw [← getD_range' txt ' ' a k h1, ← getD_range' pos 0 a k h2, List.zip_map']
+
+theorem flatMap_congr' {α β} (l : List α) (f g : α → List β) (h : ∀ i ∈ l, f i = g i) :
+    l.flatMap f = l.flatMap g := by
+  induction l with
+  | nil => rfl
+  | cons a l ih =>
+    simp only [List.flatMap_cons]
+    rw [h a (by simp), ih (fun i hi => h i (by simp [hi]))]
+
+theorem find_none_of_lt (last n : Nat) (ms : List Span) (i : Nat)
+    (h : SpansOk last n ms) (hi : i < last) :
+    ms.find? (fun m => decide (m.start ≤ i ∧ i < m.start + m.len)) = none := by
+  induction ms generalizing last with
+  | nil => rfl
+  | cons m ms ih =>
+    simp only [SpansOk] at h
+    rw [List.find?_cons_of_neg (by simp; omega)]
+    exact ih (m.start + m.len) h.2.2.2 (by omega)
+
+theorem substSpecAt_before (txt : Str) (pos : List Nat) (ms : List Span) (repl : Str)
+    (last n i : Nat) (h : SpansOk last n ms) (hi : i < last) :
+    substSpecAt txt pos ms repl i = [(txt.getD i ' ', pos.getD i 0)] := by
+  simp only [substSpecAt, find_none_of_lt last n ms i h hi]
+
+theorem substSpecAt_start (txt : Str) (pos : List Nat) (m : Span) (ms : List Span) (repl : Str)
+    (hl : 1 ≤ m.len) :
+    substSpecAt txt pos (m :: ms) repl m.start =
+      (List.range repl.length).map
+        (fun j => (repl.getD j ' ', pos.getD (m.start + min j (m.len - 1)) 0)) := by
+  simp only [substSpecAt]
+  rw [List.find?_cons_of_pos (by simp; omega)]
+  simp
+
+theorem substSpecAt_inside (txt : Str) (pos : List Nat) (m : Span) (ms : List Span) (repl : Str)
+    (i : Nat) (h1 : m.start < i) (h2 : i < m.start + m.len) :
+    substSpecAt txt pos (m :: ms) repl i = [] := by
+  simp only [substSpecAt]
+  rw [List.find?_cons_of_pos (by simp; omega)]
+  simp; omega
+
+theorem substSpecAt_after (txt : Str) (pos : List Nat) (m : Span) (ms : List Span) (repl : Str)
+    (i : Nat) (h : m.start + m.len ≤ i) :
+    substSpecAt txt pos (m :: ms) repl i = substSpecAt txt pos ms repl i := by
+  simp only [substSpecAt]
+  rw [List.find?_cons_of_neg (by simp; omega)]
+
+theorem range'_split (a b c : Nat) : List.range' a (b + c) = List.range' a b ++ List.range' (a + b) c := by
+  simp [List.range'_append_1]
+
+
+theorem zip_repl (repl : Str) (f : Nat → Nat) :
+    repl.zip ((List.range repl.length).map f)
+      = (List.range repl.length).map (fun j => (repl.getD j ' ', f j)) := by
+  have : repl = (List.range repl.length).map (fun j => repl.getD j ' ') := by
+    apply List.ext_getElem
+    · simp
+    · intro i h _; simp [List.getElem?_eq_getElem h]
+  conv => lhs; lhs; rw [this]
+  rw [List.zip_map']
+
+theorem substituteFrom_spec (repl txt : Str) (pos : List Nat) (ms : List Span) (last : Nat)
+    (hlen : txt.length = pos.length) (hl : last ≤ txt.length)
+    (hok : SpansOk last txt.length ms) :
+    (substituteFrom repl last (txt.drop last) (pos.drop last) ms).1.length
+      = (substituteFrom repl last (txt.drop last) (pos.drop last) ms).2.length ∧
+    (substituteFrom repl last (txt.drop last) (pos.drop last) ms).1.zip
+        (substituteFrom repl last (txt.drop last) (pos.drop last) ms).2
+      = (List.range' last (txt.length - last)).flatMap (substSpecAt txt pos ms repl) := by
+  induction ms generalizing last with
+  | nil =>
+    simp only [substituteFrom]
+    refine ⟨by simp; omega, ?_⟩
+    rw [flatMap_congr' _ _ (fun i => [(txt.getD i ' ', pos.getD i 0)])
+      (fun i _ => by simp [substSpecAt])]
+    rw [← List.map_eq_flatMap]
+    rw [← zip_drop_take txt pos last (txt.length - last) (by omega) (by omega)]
+    rw [List.take_of_length_le (by simp), List.take_of_length_le (by simp; omega)]
+  | cons m ms ih =>
+    simp only [SpansOk] at hok
+    obtain ⟨h1, h2, h3, h4⟩ := hok
+    obtain ⟨ihl, ihz⟩ := ih (m.start + m.len) h3 h4
+    have e1 : (txt.drop last).drop (m.start - last + m.len) = txt.drop (m.start + m.len) := by
+      rw [List.drop_drop]; congr 1; omega
+    have e2 : (pos.drop last).drop (m.start - last + m.len) = pos.drop (m.start + m.len) := by
+      rw [List.drop_drop]; congr 1; omega
+    have e3 : ((pos.drop last).drop (m.start - last)).take m.len = (pos.drop m.start).take m.len := by
+      rw [List.drop_drop]; congr 2; omega
+    simp only [substituteFrom]
+    rw [e1, e2, e3, replPositions_eq pos m.start m.len repl.length (by omega) h2]
+    have la : ((txt.drop last).take (m.start - last)).length
+        = ((pos.drop last).take (m.start - last)).length := by simp; omega
+    have lb : repl.length = ((List.range repl.length).map
+        (fun j => pos.getD (m.start + min j (m.len - 1)) 0)).length := by simp
+    refine ⟨by simp only [List.length_append]; omega, ?_⟩
+    rw [List.zip_append (by simp only [List.length_append]; omega), List.zip_append la, ihz]
+    have es : txt.length - last = (m.start - last) + (m.len + (txt.length - (m.start + m.len))) := by
+      omega
+    rw [es, range'_split, range'_split, List.flatMap_append, List.flatMap_append]
+    have e4 : last + (m.start - last) = m.start := by omega
+    rw [e4, List.append_assoc]
+    congr 1
+    · rw [zip_drop_take txt pos last (m.start - last) (by omega) (by omega)]
+      rw [flatMap_congr' _ _ (fun i => [(txt.getD i ' ', pos.getD i 0)])]
+      · rw [← List.map_eq_flatMap]
+      · intro i hi
+        simp at hi
+        exact substSpecAt_before txt pos (m :: ms) repl (i + 1) txt.length i
+          (by simp only [SpansOk]; exact ⟨by omega, h2, h3, h4⟩) (by omega)
+    · congr 1
+      · rw [zip_repl]
+        obtain ⟨k, hk⟩ : ∃ k, m.len = k + 1 := ⟨m.len - 1, by omega⟩
+        rw [hk, List.range'_succ, List.flatMap_cons, ← hk, substSpecAt_start txt pos m ms repl h2]
+        rw [flatMap_congr' _ _ (fun _ => [])]
+        · simp
+        · intro i hi
+          simp at hi
+          exact substSpecAt_inside txt pos m ms repl i (by omega) (by omega)
+      · apply flatMap_congr'
+        intro i hi
+        simp at hi
+        exact (substSpecAt_after txt pos m ms repl i (by omega)).symm
+
+/-! ### matcher: `startsWith`, `sepLen`, `matchWords`, `matchAt`, `findSpans` -/
+
+theorem startsWith_eq (s w : Str) (h : startsWith s w = true) : w ++ s.drop w.length = s := by
+  fun_induction startsWith s w <;> simp_all
+
+theorem startsWith_len (s w : Str) (h : startsWith s w = true) : w.length ≤ s.length := by
+  have := congrArg List.length (startsWith_eq s w h)
+  simp at this; omega
+
+theorem startsWith_take (s w : Str) (h : startsWith s w = true) : s.take w.length = w := by
+  have := startsWith_eq s w h
+  conv => lhs; rw [← this]
+  simp
+
+theorem takeWhile_append_drop (p : Char → Bool) (s : Str) :
+    s.takeWhile p ++ s.drop (s.takeWhile p).length = s := by
+  induction s with
+  | nil => simp
+  | cons a s ih => by_cases h : p a <;> simp [h]; exact ih
+
+theorem countNl_blank (s : Str) : countNl (s.takeWhile isBlankTab) = 0 := by
+  induction s with
+  | nil => simp [countNl]
+  | cons a s ih =>
+    by_cases h : isBlankTab a
+    · simp [h]
+      simp [countNl] at ih ⊢
+      rw [List.count_cons, ih]
+      simp [isBlankTab] at h
+      rcases h with h | h <;> subst h <;> decide
+    · simp [h, countNl]
+
+theorem sepLen_le (s : Str) (k : Nat) (h : sepLen s = some k) : k ≤ s.length := by
+  simp only [sepLen] at h
+  have h1 := congrArg List.length (takeWhile_append_drop isBlankTab s)
+  simp only [List.length_append] at h1
+  split at h
+  · rename_i c more heq
+    have h2 : (more.takeWhile isBlankTab).length ≤ more.length := (List.takeWhile_sublist _).length_le
+    rw [heq] at h1
+    simp at h1
+    split at h
+    · simp at h; omega
+    · split at h <;> simp at h; omega
+  · split at h <;> simp at h; omega
+
+theorem countNl_append (a b : Str) : countNl (a ++ b) = countNl a + countNl b := by
+  simp [countNl]
+
+theorem countNl_take_le (a : Str) (k : Nat) : countNl (a.take k) ≤ countNl a := by
+  simp only [countNl]
+  exact List.Sublist.count_le _ (List.take_sublist k a)
+
+theorem sepLen_nl (s : Str) (k : Nat) (h : sepLen s = some k) : countNl (s.take k) ≤ 1 := by
+  simp only [sepLen] at h
+  have h0 := takeWhile_append_drop isBlankTab s
+  have hb := countNl_blank s
+  generalize s.takeWhile isBlankTab = b1 at *
+  split at h
+  · rename_i c more heq
+    rw [heq] at h0
+    split at h
+    · simp at h
+      have hm := countNl_blank more
+      have : s.take k = b1 ++ c :: more.takeWhile isBlankTab := by
+        rw [← h0, ← h, List.take_append]
+        have : b1.length + 1 + (more.takeWhile isBlankTab).length - b1.length = (more.takeWhile isBlankTab).length + 1 := by omega
+        rw [this, List.take_of_length_le (by omega)]
+        simp
+        exact (List.prefix_iff_eq_take.mp (List.takeWhile_prefix _)).symm
+      rw [this, countNl_append, hb]
+      simp only [countNl, List.count_cons] at hm ⊢
+      rw [hm]; split <;> omega
+    · split at h <;> simp at h
+      subst h
+      rw [← h0]; simp [hb]
+  · split at h <;> simp at h
+    subst h
+    rw [← h0]; simp [hb]
+
+
+theorem matchWords_le (ws : List Str) (s : Str) (m : Nat)
+    (h : matchWords ws s = some m) : m ≤ s.length := by
+  fun_induction matchWords ws s generalizing m
+  case case1 => simp at h; omega
+  case case2 w s hs => simp at h; subst h; exact startsWith_len _ _ hs
+  case case6 w ws s hne hs k hk m' hm' ih =>
+    simp at h; subst h
+    have hw := startsWith_len _ _ hs
+    have hk' := sepLen_le _ _ hk
+    have := ih m' hm'
+    simp at hk' this
+    omega
+  all_goals simp at h
+
+theorem take3 (s : Str) (a k m : Nat) :
+    s.take (a + k + m) = s.take a ++ (s.drop a).take k ++ (s.drop (a + k)).take m := by
+  rw [List.take_add, List.take_add]
 
 theorem matchWords_nl (ws : List Str) (s : Str) (m : Nat)
     (hws : ∀ w ∈ ws, ∀ c ∈ w, c ≠ nl)
     (h : matchWords ws s = some m) : countNl (s.take m) + 1 ≤ ws.length ∨ ws = [] := by
-  sorry
+  fun_induction matchWords ws s generalizing m
+  case case1 => simp
+  case case2 w s hs =>
+    simp at h; subst h
+    rw [startsWith_take _ _ hs]
+    left
+    have : countNl w = 0 := List.count_eq_zero.mpr (fun hc => hws w (by simp) nl hc rfl)
+    simp [this]
+  case case6 w ws s hne hs k hk m' hm' ih =>
+    simp at h; subst h
+    have ih' := ih m' (fun w' hw' => hws w' (List.mem_cons_of_mem _ hw')) hm'
+    have hk' := sepLen_nl _ _ hk
+    have hw0 : countNl w = 0 := List.count_eq_zero.mpr (fun hc => hws w (by simp) nl hc rfl)
+    left
+    rw [take3, startsWith_take _ _ hs, countNl_append, countNl_append, hw0]
+    rcases ih' with ih' | ih'
+    · simp; omega
+    · exact absurd ih' hne
+  all_goals simp at h
+
+
+theorem matchAt_bounds (T : Tables) (ph : Phrase) (prev : Option Char) (s : Str) (m : Nat)
+    (h : matchAt T ph prev s = some m) : 1 ≤ m ∧ m ≤ s.length := by
+  unfold matchAt at h
+  split at h
+  · simp at h
+  · split at h
+    · simp at h
+    · simp at h
+    · rename_i m' hne hm
+      have := matchWords_le _ _ _ hm
+      split at h
+      · simp at h
+      · simp at h; subst h
+        exact ⟨Nat.pos_of_ne_zero (fun h0 => hne h0), this⟩
+
+theorem SpansOk_mono (a b n : Nat) (ms : List Span) (hab : a ≤ b) (h : SpansOk b n ms) :
+    SpansOk a n ms := by
+  cases ms with
+  | nil => trivial
+  | cons m ms => simp only [SpansOk] at h ⊢; exact ⟨by omega, h.2⟩
+
+theorem findSpans_ok_gen (T : Tables) (ph : Phrase) (fuel i : Nat) (prev : Option Char) (s : Str)
+    (hf : s.length ≤ fuel) : SpansOk i (i + s.length) (findSpans T ph fuel i prev s) := by
+  induction fuel generalizing i prev s with
+  | zero => simp [findSpans, SpansOk]
+  | succ fuel ih =>
+    cases s with
+    | nil => simp [findSpans, SpansOk]
+    | cons c cs =>
+      simp only [findSpans]
+      split
+      · rename_i m hm
+        have hb := matchAt_bounds _ _ _ _ _ hm
+        simp only [SpansOk]
+        refine ⟨Nat.le_refl _, hb.1, by omega, ?_⟩
+        have := ih (i + m) ((c :: cs).take m).getLast? ((c :: cs).drop m) (by simp at hf ⊢; omega)
+        have e : i + m + ((c :: cs).drop m).length = i + (c :: cs).length := by
+          simp at hb ⊢; omega
+        rw [e] at this
+        exact this
+      · have := ih (i + 1) (some c) cs (by simp at hf; omega)
+        apply SpansOk_mono i (i + 1) _ _ (by omega)
+        have e : i + 1 + cs.length = i + (c :: cs).length := by simp; omega
+        rw [← e]; exact this
+
+theorem findSpans_ok (T : Tables) (ph : Phrase) (txt : Str) :
+    SpansOk 0 txt.length (findSpans T ph txt.length 0 none txt) := by
+  simpa using findSpans_ok_gen T ph txt.length 0 none txt (Nat.le_refl _)
 
 theorem matchAt_boundaries (T : Tables) (ph : Phrase) (prev : Option Char) (s : Str) (m : Nat)
     (h : matchAt T ph prev s = some m) :
     (ph.bLeft = true → wordBoundary T prev s.head? = true) ∧
     (ph.bRight = true → wordBoundary T ((s.take m).getLast?) (s.drop m).head? = true) ∧ 1 ≤ m := by
-  sorry
+  unfold matchAt at h
+  split at h
+  · simp at h
+  · split at h
+    · simp at h
+    · simp at h
+    · split at h
+      · simp at h
+      · simp at h; subst h
+        simp_all
+        omega
+
+theorem takeWhile_hash (l r : Str) (h : ∀ c ∈ l, c ≠ '#') :
+    (l ++ '#' :: r).takeWhile (· != '#') = l := by
+  induction l with
+  | nil => simp
+  | cons a l ih => simp_all
+
+theorem takeWhile_hash' (l : Str) (h : ∀ c ∈ l, c ≠ '#') :
+    l.takeWhile (· != '#') = l := by
+  induction l with
+  | nil => simp
+  | cons a l ih => simp_all
 
 theorem parseRule_comment (T : Tables) (l r : Str) (h : ∀ c ∈ l, c ≠ '#') :
     parseRule T (l ++ '#' :: r) = parseRule T l := by
-  sorry
+  unfold parseRule
+  rw [takeWhile_hash l r h, takeWhile_hash' l h]
 
 theorem parseRule_no_lhs (T : Tables) (line : Str)
     (h : (splitWs (line.takeWhile (· != '#'))).head? = some ['&'] ∨ splitWs (line.takeWhile (· != '#')) = []) :
     parseRule T line = none := by
-  sorry
+  have hl : (splitWs (line.takeWhile (· != '#'))).takeWhile (· != ['&']) = [] := by
+    rcases h with h | h
+    · cases hw : splitWs (line.takeWhile (· != '#')) with
+      | nil => simp
+      | cons a ws => rw [hw] at h; simp at h; subst h; simp
+    · rw [h]; simp
+  unfold parseRule
+  simp only [hl]
+  simp
+
+theorem substitute_spec (txt : Str) (pos : List Nat) (ms : List Span) (repl : Str)
+    (hlen : txt.length = pos.length) (hok : SpansOk 0 txt.length ms) :
+    (substitute txt pos ms repl).1.length = (substitute txt pos ms repl).2.length ∧
+    (substitute txt pos ms repl).1.zip (substitute txt pos ms repl).2 =
+      (List.range txt.length).flatMap (substSpecAt txt pos ms repl) := by
+  have h := substituteFrom_spec repl txt pos ms 0 hlen (Nat.zero_le _) hok
+  simp only [List.drop_zero, Nat.sub_zero] at h
+  rw [List.range_eq_range']
+  exact h
+
+theorem substitute_positions (txt : Str) (pos : List Nat) (ms : List Span) (repl : Str)
+    (hlen : txt.length = pos.length) (hok : SpansOk 0 txt.length ms) :
+    ∀ p ∈ (substitute txt pos ms repl).2, p ∈ pos := by
+  -- holds without the two hypotheses; they are part of the given statement
+  have _ := hlen
+  have _ := hok
+  exact substituteFrom_positions repl 0 txt pos ms
+
+theorem applyRule_ok (T : Tables) (tp : Str × List Nat) (r : Rule)
+    (hlen : tp.1.length = tp.2.length) :
+    (applyRule T tp r).1.length = (applyRule T tp r).2.length ∧
+    ∀ p ∈ (applyRule T tp r).2, p ∈ tp.2 := by
+  unfold applyRule
+  exact ⟨(substitute_spec tp.1 tp.2 _ r.repl hlen (findSpans_ok T r.phrase tp.1)).1,
+    substitute_positions tp.1 tp.2 _ r.repl hlen (findSpans_ok T r.phrase tp.1)⟩
+
+theorem foldl_applyRule_ok (T : Tables) (rs : List Rule) (tp : Str × List Nat) (pos : List Nat)
+    (hlen : tp.1.length = tp.2.length) (hsub : ∀ p ∈ tp.2, p ∈ pos) :
+    (rs.foldl (applyRule T) tp).1.length = (rs.foldl (applyRule T) tp).2.length ∧
+    ∀ p ∈ (rs.foldl (applyRule T) tp).2, p ∈ pos := by
+  induction rs generalizing tp with
+  | nil => exact ⟨hlen, hsub⟩
+  | cons r rs ih =>
+    simp only [List.foldl_cons]
+    have h := applyRule_ok T tp r hlen
+    exact ih (applyRule T tp r) h.1 (fun p hp => hsub p (h.2 p hp))
 
 theorem replacePhrases_ok (T : Tables) (txt : Str) (pos : List Nat) (lines : List Str)
     (hlen : txt.length = pos.length) :
     (replacePhrases T txt pos lines).1.length = (replacePhrases T txt pos lines).2.length ∧
     ∀ p ∈ (replacePhrases T txt pos lines).2, p ∈ pos := by
-  sorry
+  unfold replacePhrases
+  exact foldl_applyRule_ok T _ (txt, pos) pos hlen (fun p hp => hp)
 
 end Yalafi
